@@ -92,7 +92,7 @@ def _passthrough(eff: Effects, site: tuple) -> bool:
     return cs is not None and _reportable_in(eff, cs.f, origin)
 
 
-def rule_write(repo: Repo, rid: str = "C07.write") -> RuleResult:
+def rule_write(repo: Repo, rid: str = "C07.write", floor: int = 40) -> RuleResult:
     r = RuleResult(rid, "no write below an input-holding field of self, below a parameter of a public entry point, or into a module global",
                    "inputs (domain, action schemas, states) keep their value")
     eff = effects(repo)
@@ -150,7 +150,7 @@ def rule_write(repo: Repo, rid: str = "C07.write") -> RuleResult:
     r.notes.append(f"effect summaries: {len(eff.sums)} functions, fixpoint in {eff.rounds} rounds; writes through UNKNOWN provenance: {unknown}")
     r.notes.append("mutators by contract: " + ", ".join(sorted(MUTATOR_NAMES)))
     r.notes.append("contract parameters: " + "; ".join(f"{k[0]}({k[1]}): {v}" for k, v in sorted(CONTRACT_PARAMS.items())))
-    r.require_sites(40)
+    r.require_sites(floor)
     return r
 
 
@@ -158,7 +158,7 @@ def _callee_reports_param(eff: Effects, qn: str) -> bool:
     return True
 
 
-def rule_global(repo: Repo, rid: str = "C07.global") -> RuleResult:
+def rule_global(repo: Repo, rid: str = "C07.global", floor: int = 5) -> RuleResult:
     r = RuleResult(rid, "no function writes into a module-level mutable object or a mutable default argument",
                    "independent domains and problems share no mutable state")
     eff = effects(repo)
@@ -198,11 +198,11 @@ def rule_global(repo: Repo, rid: str = "C07.global") -> RuleResult:
                 r.site(f"{m.short}.{name} [module-level mutable]")
                 if name not in found:
                     r.ok({"global": f"{m.short}.{name}", "written_by": []})
-    r.require_sites(5)
+    r.require_sites(floor)
     return r
 
 
-def rule_escape(repo: Repo, rid: str = "C07.escape") -> RuleResult:
+def rule_escape(repo: Repo, rid: str = "C07.escape", floor: int = 2) -> RuleResult:
     r = RuleResult(rid, "an object that its owner later mutates in place is not stored into a state handed to the owner",
                    "states returned earlier keep their value when the same operator is applied again")
     eff = effects(repo)
@@ -235,7 +235,7 @@ def rule_escape(repo: Repo, rid: str = "C07.escape") -> RuleResult:
                                f"({hit[0][2]}): the state returned by an earlier call changes when the operator is applied again"))
             else:
                 r.ok({"function": f.qn, "stored": fmt_atom(value), "into": fmt_atom(cont), "owner_mutates_it": False})
-    r.require_sites(2)
+    r.require_sites(floor)
     return r
 
 
